@@ -672,3 +672,9 @@ def run(ck):
                     'objects still exist', floor=3)
         lib.state_lifetime(prog, r, [('BusConnections', 'completed_by_user'), ('BusConnections', 'pending_replies'),
                                      ('BusContext', 'connections')])
+        from rules.C09 import slot_opened_last
+        lib.shared_rule(ck, prog, 'C13.7', 'a request the gate refuses (LimitsExceeded for a full destination queue '
+                        'included) has not taken a pending-reply slot: the slot is the gate\'s last step (shared with '
+                        'C09.1)', 'TS', 'a refused call changes the pending-reply count: the caller is later told '
+                        'its maximum is reached although nothing is outstanding', 1,
+                        lambda ck2, prog2: slot_opened_last(prog2, ck2.rule('x', 'x', 'TS')))
